@@ -3,6 +3,9 @@
 package executor
 
 import (
+	"context"
+	"time"
+
 	"github.com/ChainSafe/sygma-relayer/relayer/transfer"
 	"github.com/binance-chain/tss-lib/common"
 )
@@ -11,4 +14,17 @@ import (
 func (e *Executor) VerifC02ExecuteProposal(ps []*transfer.TransferProposal, sig *common.SignatureData) error {
 	_, _, err := e.executeProposal(ps, sig)
 	return err
+}
+
+// VerifC02WatchExecution runs the unexported watch loop on the caller's slice (no copy).
+func (e *Executor) VerifC02WatchExecution(ctx context.Context, cancel context.CancelFunc, ps []*transfer.TransferProposal,
+	sigChn chan interface{}, sessionID string) error {
+	return e.watchExecution(ctx, cancel, ps, sigChn, sessionID)
+}
+
+// VerifC02SetCheckPeriod replaces the period of the "already executed?" poll and returns the previous one.
+func VerifC02SetCheckPeriod(d time.Duration) time.Duration {
+	old := executionCheckPeriod
+	executionCheckPeriod = d
+	return old
 }
